@@ -763,7 +763,6 @@ def _tlc_job(args):
     r.output = r.output[-4000:]
     r.error_trace = [(lbl, _j(st)) for lbl, st in r.error_trace]    # FrozenDict does not survive pickling
     return r
-    return fix_coverage(r) if module == "NatWalk.tla" else r
 
 
 def run(tier, seed, replay=None):
@@ -793,31 +792,42 @@ def run(tier, seed, replay=None):
         jobs["k2"] = ("NatWalk.tla", "NatWalk_k2.cfg", dict(mc, timeout=3000))
         jobs["k1_followall"] = ("NatWalk.tla", "NatWalk_k1_all.cfg", dict(mc, timeout=3000))
         jobs["k1_concurrent21"] = ("NatWalk.tla", "NatWalk_k1_conc21.cfg", dict(mc, timeout=3000))
+        jobs["k2_followall"] = ("NatWalk.tla", "NatWalk_k2_all.cfg", dict(mc, timeout=3000))
     side = multiprocessing.get_context("fork").Pool(len(jobs) + 9)
     try:
         dumps = {c: side.apply_async(_dump_job, (c,)) for c in ("NatWalk_k1.cfg", "NatWalk_k1_conc.cfg")}
         pending = {k: side.apply_async(_tlc_job, (v,)) for k, v in jobs.items()}
 
         # ---- T (recording): seeded schedules on real worlds; TLC validates them while the replay runs
-        ntr = 24 if quick else 300
-        traces = []
-        for i in range(ntr):
-            force = ["withA", "nat", "pub", "withI"][i % 4] if i < 8 else None
-            traces.append(record_trace(rng, random_topology(rng, force)))
+        nbatch, per = (1, 24) if quick else (4, 300)
+        batches = []
+        for b in range(nbatch):
+            batch = []
+            for i in range(per):
+                force = ["withA", "nat", "pub", "withI"][i % 4] if b == 0 and i < 8 else None
+                batch.append(record_trace(rng, random_topology(rng, force)))
+            tj = json.dumps(_j(batch))
+            batches.append((batch, side.apply_async(_validate_job, ((tj, "NatWalkTrace.cfg"),)),
+                            side.apply_async(_validate_job, ((tj, "NatWalkTrace_obs.cfg"),))))
+        traces = [t for b in batches for t in b[0]]
         for t in traces:
             for ev in t["events"]:
                 if "handler_error" in ev:
                     ctx.violation("trace:handler-raised", "a message handler raised: %s" % ev["handler_error"],
                                   {"topology": t["topo"]})
-        tj = json.dumps(_j(traces))
-        v_strict = side.apply_async(_validate_job, ((tj, "NatWalkTrace.cfg"),))
-        v_obs = side.apply_async(_validate_job, ((tj, "NatWalkTrace_obs.cfg"),))
         ctl = {}
         for how in ("nat-kind", "puncture-target", "forgot-peer", "lan-as-wan"):
             bad = next((c for c in (corrupt(t, how) for t in traces) if c is not None), None)
             ctl[how] = None if bad is None else side.apply_async(_validate_job,
                                                                  ((json.dumps(_j([bad])), "NatWalkTrace.cfg"),))
-        sab = record_trace(random.Random(seed + 1), SABOTAGE_TOPOLOGY, sabotage="no-puncture-request")
+        for k in range(200):   # a schedule in which I really introduces B1 to the requester A
+            sab = record_trace(random.Random(seed + 1 + k), SABOTAGE_TOPOLOGY, sabotage="no-puncture-request")
+            if any(p["kind"] == "iresp" and p["from"] == "I" and addr(p["iwan"]) != ZERO
+                   and p["dst"][0] == SABOTAGE_TOPOLOGY["extip"]["A"]
+                   for ev in sab["events"] for p in ev.get("emitted", [])):
+                break
+        else:
+            raise MachineryError("no schedule of the sabotage control contains an introduction")
         ctl_sab = side.apply_async(_validate_job, ((json.dumps(_j([sab])), "NatWalkTrace_obs_reach.cfg"),))
 
         # ---- R: the K=1 state graph on the real code
@@ -833,8 +843,10 @@ def run(tier, seed, replay=None):
                     pass
 
         # ---- T (verdicts)
-        ok_strict = judge_traces(ctx, traces, v_strict.get(), "trace_strict", True)
-        ok_obs = judge_traces(ctx, traces, v_obs.get(), "trace_observed", False)
+        ok_strict = ok_obs = True
+        for bi, (batch, fs, fo) in enumerate(batches):
+            ok_strict = judge_traces(ctx, batch, fs.get(), "trace_strict_%d" % bi, True) and ok_strict
+            ok_obs = judge_traces(ctx, batch, fo.get(), "trace_observed_%d" % bi, False) and ok_obs
         if ok_strict and ok_obs:
             ctx.traces(len(traces))
             ctx.evaluated(sum(len(t["events"]) for t in traces))
